@@ -8,6 +8,12 @@ theorem MkChange.mono {fs fs1 : FS} {p : P} {mode : Nat} (h : MkChange fs fs1 p 
   · rw [h1]; exact hq
   · rw [h1] at hq; cases hq
 
+theorem MkChange.noneOrDir {fs fs1 : FS} {p : P} {mode : Nat} (h : MkChange fs fs1 p mode) (q : P)
+    (hq : fs.get q = none ∨ ∃ m, fs.get q = some (.dir m)) : fs1.get q = none ∨ ∃ m, fs1.get q = some (.dir m) := by
+  rcases h q with h1 | ⟨_, h2, _⟩
+  · rw [h1]; exact hq
+  · exact Or.inr ⟨_, h2⟩
+
 theorem below_ne_nil {root p : P} (h : ∃ c t, p = root ++ c :: t) : p ≠ [] := by
   obtain ⟨c, t, e⟩ := h
   rw [e]; simp
@@ -112,8 +118,7 @@ theorem tarOne_link_step (fs : FS) (hw : WF fs) (root : P) (hr : GoodPath root) 
   have hlt : lexOK root (cleanJoin root e.link) false = true :=
     (lexOK_iff root _ hr (cleanJoin_good root e.link hr) false).mpr (Or.inl htb)
   have hgt : ensureNoSymlinks fs1 root (cleanJoin root e.link) = true := by
-    obtain ⟨m0, hm0⟩ := hrd.rootdir
-    refine ensureNoSymlinks_true fs1 root _ ?_ ⟨m0, hch.mono _ _ hm0⟩ (fun j h1 h2 => ?_)
+    refine ensureNoSymlinks_true fs1 root _ ?_ (hch.noneOrDir root hrd.rootdir) (fun j h1 h2 => ?_)
     · intro e'
       have := below_len htb
       rw [e'] at this; omega
